@@ -395,14 +395,20 @@ Fixpoint show_fuel (fuel : nat) (s : store) (n : id) : str :=
 Definition show (s : store) (n : id) : str := show_fuel (N.to_nat (next s)) s n.
 Definition show_doc (s : store) : str := show s (sroot s).
 
-(** [Context::entity]: declared in the document's current doctype, or predefined *)
+(** [Context::entity]: declared in the document's current doctype, or predefined.
+    [ients] of the doctype item lists a declared general entity as [name] when a reference to it is
+    accepted in an attribute value ([check_entity_ref]: parsed, internal, no [<], no recursion ...)
+    and as [0 :: name] when it is declared but refused there (0 is not a name character). *)
 Definition predefined : list str :=
   [[108; 116]; [103; 116]; [97; 109; 112]; [97; 112; 111; 115]; [113; 117; 111; 116]].
-Definition entity_known (s : store) (name : str) : bool :=
+Definition decl_ents (s : store) : list str :=
   match doc_decl s with
-  | Some d => match get s d with
-              | Some it => existsb (str_eqb name) (ients it)
-              | None => false
-              end
-  | None => false
-  end || existsb (str_eqb name) predefined.
+  | Some d => match get s d with Some it => ients it | None => [] end
+  | None => []
+  end.
+(** usable in an attribute value ([XmlAttributeValue::new]) *)
+Definition entity_known (s : store) (name : str) : bool :=
+  existsb (str_eqb name) (decl_ents s) || existsb (str_eqb name) predefined.
+(** declared at all ([create_entity_reference]) *)
+Definition entity_declared (s : store) (name : str) : bool :=
+  entity_known s name || existsb (str_eqb (0 :: name)) (decl_ents s).
